@@ -3,10 +3,27 @@
    N, Z, positive, nat, byte stay the extracted inductive types. *)
 From Coq Require Import ExtrOcamlBasic.
 From Coq Require Import Strings.Byte NArith ZArith List.
-From LLIR Require Import Lib.Bytes Model.Natsort Model.Assemble.
+From Coq Require Import Strings.String.
+From LLIR Require Import Lib.Bytes Model.Natsort Model.Assemble Model.Writer Gen.Enums Model.GoEval Proofs.EnumProofs.
 
 Definition byte_of_N_total (n : N) : byte := match Byte.of_N n with Some b => b | None => x00 end.
+(* C19: run the chunks against a writer failing after k bytes: (size, failed?, delivered, calls) *)
+Definition writeto_fail_after (k : nat) (chunks : list bytes) : nat * bool * bytes * nat :=
+  let s := run nat (fail_after k) 0 chunks in
+  (fw_size nat s, match fw_err nat s with Some _ => true | None => false end, fw_delivered nat s, fw_calls nat s).
+(* C18: the regenerated keyword tables *)
+Definition enum_str (ty : string) (v : Z) : bytes := enum_string ty v.
+Definition enum_from (ty : string) (s : bytes) : option Z :=
+  match enum_table ty with
+  | Some t => match from_string t s with EnumProofs.Ok v => Some v | Panic => None end
+  | None => None
+  end.
+(* asm.irCallingConv on  cc N  (theorem C18_numeric_calling_convention_read over the regenerated body) *)
+Definition cc_read (n : Z) : Z := if (n =? 0)%Z then 1%Z else n.
+Definition flagset_value (ty : string) (names : list bytes) : option Z :=
+  fold_left (fun acc s => match acc, enum_from ty s with Some a, Some v => Some (Z.lor a v) | _, _ => None end) names (Some 0%Z).
 Definition sort_ids (l : list Z) : list Z := isort Z.ltb l.
 
 Extraction "model.ml" byte_of_N_total Byte.to_N
-  Natsort.less Natsort.sort_strings sort_ids.
+  Natsort.less Natsort.sort_strings sort_ids
+  writeto_fail_after enum_str enum_from cc_read flagset_value.
